@@ -2,6 +2,7 @@ import UbxModel.Proofs.FieldsRoundtrip2
 import UbxModel.Proofs.LayoutBlocks
 import UbxModel.Gen.Layouts
 import UbxModel.Proofs.ValgetRoundtrip
+import UbxModel.Proofs.Utf8
 /-!
 # C08 — Encoding inverts decoding; read-modify-write changes only the edited field
 
@@ -115,5 +116,52 @@ theorem valget_encode_after_decode (payload : List Nat) (hb : Bytes payload) (v 
 /-- non-vacuity: CFG-RATE-MEAS = 1000 (16 bit) with reserved key bits set, then a 1-bit item, then two stray bytes -/
 example : valgetCanon 20 [0x01, 0xF0, 0x21, 0xB0, 0xE8, 0x03, 0x1F, 0x00, 0x31, 0x10, 0x01, 0xAA, 0xBB]
     = [0x01, 0x00, 0x21, 0x30, 0xE8, 0x03, 0x1F, 0x00, 0x31, 0x10, 0x01] := by decide +kernel
+
+/-- **text fields, what decodes.** The bytes `CH.unpack` accepts are exactly the UTF-8 encodings (RFC 3629, `Spec/Utf8.lean`)
+    of sequences of Unicode scalar values - no over-long forms, no surrogates, nothing above U+10FFFF, no cut sequence. -/
+theorem text_accepts_exactly_utf8 (bs : List Nat) :
+    validUtf8 bs = true ↔ ∃ cs, (∀ c ∈ cs, isScalar c) ∧ encodeText cs = bs :=
+  ⟨valid_is_encoded bs, fun ⟨cs, h, e⟩ => e ▸ valid_encodeText cs h⟩
+
+/-- **text fields, one text per byte string.** Two texts with the same encoding are the same text: the bytes of a text
+    field and the `str` it decodes to determine each other (which is what lets the model keep a `str` as its bytes). -/
+theorem text_unique (cs cs' : List Nat) (h : ∀ c ∈ cs, isScalar c) (h' : ∀ c ∈ cs', isScalar c)
+    (he : encodeText cs = encodeText cs') : cs = cs' := encodeText_inj cs cs' h h' he
+
+/-- **one text item, decode then encode.** What `CH(n).unpack` returns is a text (the encoding of scalar values, the
+    field's bytes without the trailing NULs), and `pack()` of it gives the field's `n` bytes back - measured in bytes,
+    whatever the number of characters. -/
+theorem text_item_roundtrip (n : Nat) (data : List Nat) (v : Val) (k : Nat)
+    (h : (Kind.text n).unpack data = .ok (v, k)) :
+    k = n ∧ (∃ cs, (∀ c ∈ cs, isScalar c) ∧ v = .str (encodeText cs) ∧ encodeText cs = stripNuls (data.take n)) ∧
+    (Kind.text n).pack v = .ok (data.take n) := by
+  simp only [Kind.unpack] at h
+  split at h
+  · cases h
+  · rename_i hl
+    split at h
+    · cases h
+    · rename_i hv
+      simp only [Except.ok.injEq, Prod.mk.injEq] at h
+      obtain ⟨rfl, rfl⟩ := h
+      have hv' : validUtf8 (data.take n) = true := by simpa using hv
+      obtain ⟨cs, hs, he⟩ := valid_is_encoded _ (validUtf8_stripNuls _ hv')
+      refine ⟨rfl, ⟨cs, hs, by rw [he], he⟩, ?_⟩
+      obtain ⟨p1, p2⟩ := stripNuls_pad (data.take n)
+      have hlen : (data.take n).length = n := by simp; omega
+      rw [hlen] at p1 p2
+      simp only [Kind.pack]
+      have : ¬ (stripNuls (data.take n)).length > n := by omega
+      rw [if_neg this, p1]
+
+/-- the premises are satisfiable on text that is not ASCII: "µ°" then padding in a six-byte field, whatever follows -/
+example : (Kind.text 6).unpack [0xC2, 0xB5, 0xC2, 0xB0, 0, 0, 7] = .ok (.str [0xC2, 0xB5, 0xC2, 0xB0], 6) ∧
+    encodeText [0xB5, 0xB0] = [0xC2, 0xB5, 0xC2, 0xB0] := by
+  refine ⟨?_, by decide⟩
+  simp [Kind.unpack, validUtf8_cons, validUtf8, isCont, stripNuls]
+
+/-- text that fits in characters but not in bytes is refused -/
+example : (Kind.text 2).pack (.str (encodeText [0xE9, 0xE9])) = .error .valueError := by
+  simp [Kind.pack, encodeText, encodeScalar]
 
 end C08
